@@ -192,3 +192,123 @@ Theorem expression_parser_fuel_suffices :
                             List.length rest < List.length ts.
 Proof. exact StmtParserProofs.parse_expr_top_total. Qed.
 Print Assumptions expression_parser_fuel_suffices.
+
+(* ================================================================== FROM THE QUERY TEXT
+   (DESIGN.md section 5 C06 `no_panic`): the layers above composed along the glue twins
+   Model/PipelineS.v (every SELECT shape) -- Proofs/NoPanicTextProofs.v *)
+From KV Require Model.Pipeline Model.PipelineS Model.SelectPlans Model.ScanProj Model.AggregateLazy
+  Model.AggErrPos Proofs.PipelineProofs Proofs.NoPanicTextProofs.
+
+(* for EVERY byte string q (valid or not), every store (sortedness is not needed), row mode and
+   batch mode at every PlanBatchSize >= 1, every float structure, every regexp oracle that does
+   not itself panic, every float printer and float library: NewOptimizer(q).BuildPlan(store)
+   followed by Next until nil / Batch until the empty batch ends as rows (STOk), a SyntaxError
+   of BuildPlan with its position (STReject), another error of BuildPlan (STBuildErr), an error
+   of the drain (STRunErr) or the explicit model boundary (STOom) -- never as a nil dereference
+   of the front end (STPanic), never with the twin's front-end fuel exhausted (STFuel), never as
+   a panic of the drain (STRunPanic: heap.Pop on an empty heap; filterBatch[i], cols[j][i],
+   keys[i] out of range) *)
+Theorem select_stmt_text_never_panics :
+  forall (fo : fops) (re : bytes -> bytes -> res bool), (forall p t, re p t <> Panic) ->
+  forall (fmt_v : F fo -> string) (ag : SelectPlans.aggops fo) (pi pf : bytes -> option Z)
+         (q : string) (d : Storage.store) (m : Pipeline.tmode),
+  PipelineProofs.mode_ok m ->
+  match PipelineS.select_stmt_text_st fo re fmt_v ag pi pf q d m with
+  | PipelineS.STRunPanic | PipelineS.STPanic | PipelineS.STFuel => False
+  | _ => True
+  end.
+Proof. exact NoPanicTextProofs.select_stmt_text_st_never_panics. Qed.
+Print Assumptions select_stmt_text_never_panics.
+
+(* the same in Model/Pipeline.v's outcome vocabulary (C01 / C03): never TPanic, never TFuel,
+   never an error of the EPanic class *)
+Theorem select_stmt_text_never_panics_tres :
+  forall (fo : fops) (re : bytes -> bytes -> res bool), (forall p t, re p t <> Panic) ->
+  forall (fmt_v : F fo -> string) (ag : SelectPlans.aggops fo) (pi pf : bytes -> option Z)
+         (q : string) (d : Storage.store) (m : Pipeline.tmode),
+  PipelineProofs.mode_ok m ->
+  match PipelineS.select_stmt_text fo re fmt_v ag pi pf q d m with
+  | Pipeline.TPanic | Pipeline.TFuel | Pipeline.TRunErr Storage.EPanic => False
+  | _ => True
+  end.
+Proof. exact NoPanicTextProofs.select_stmt_text_never_panics. Qed.
+Print Assumptions select_stmt_text_never_panics_tres.
+
+(* ... and for the twin that keeps class and position of the errors of AggregatePlan.next /
+   batch (Model/AggErrPos.v, C17) *)
+Theorem select_stmt_text_completion_never_panics :
+  forall (fo : fops) (re : bytes -> bytes -> res bool), (forall p t, re p t <> Panic) ->
+  forall (fmt_v : F fo -> string) (ag : SelectPlans.aggops fo) (pi pf : bytes -> option Z)
+         (q : string) (d : Storage.store) (m : Pipeline.tmode),
+  PipelineProofs.mode_ok m ->
+  match AggErrPos.select_stmt_text_stp fo re fmt_v ag pi pf q d m with
+  | PipelineS.STRunPanic | PipelineS.STPanic | PipelineS.STFuel => False
+  | _ => True
+  end.
+Proof. exact NoPanicTextProofs.select_stmt_text_stp_never_panics. Qed.
+Print Assumptions select_stmt_text_completion_never_panics.
+
+(* what it is composed of.  (1) the plan nodes: any shape, any statement record (also ones no
+   text produces), any slot list, over ANY filter / projection / observation functions that do
+   not panic and return one verdict / one key per pair of the chunk *)
+Theorem plan_nodes_never_panic_row :
+  forall (fo : fops) (re : bytes -> bytes -> res bool), (forall p t, re p t <> Panic) ->
+  forall (ag : SelectPlans.aggops fo) (pi pf : bytes -> option Z)
+         (c : SelectPlans.cstmt fo) (sh : SelectPlans.shape) (sl : list (option EvalVec.kvpair)),
+  SelectPlans.select_shape_row fo re ag pi pf c sh sl <> Panic.
+Proof. exact NoPanicTextProofs.safe_select_shape_row. Qed.
+Print Assumptions plan_nodes_never_panic_row.
+
+Theorem plan_nodes_never_panic_batch :
+  forall (fo : fops) (re : bytes -> bytes -> res bool), (forall p t, re p t <> Panic) ->
+  forall (ag : SelectPlans.aggops fo) (pi pf : bytes -> option Z) (B : nat)
+         (c : SelectPlans.cstmt fo) (sh : SelectPlans.shape) (sl : list (option EvalVec.kvpair)),
+  1 <= B ->
+  SelectPlans.select_shape_batch fo re ag pi pf B c sh sl <> Panic.
+Proof. exact NoPanicTextProofs.safe_select_shape_batch. Qed.
+Print Assumptions plan_nodes_never_panic_batch.
+
+(* (2) BuildPlan: lexer + parser + checker + folder + AggregatePlan.Init, for every text *)
+Theorem build_plan_text_never_panics :
+  forall (fo : fops) (re : bytes -> bytes -> res bool) (fmt_v : F fo -> string) (q : string),
+  match PipelineS.plan_stmt_text fo re fmt_v q with
+  | PipelineS.STRunPanic | PipelineS.STPanic | PipelineS.STFuel => False
+  | _ => True
+  end.
+Proof. exact NoPanicTextProofs.plan_stmt_text_clean. Qed.
+Print Assumptions build_plan_text_never_panics.
+
+(* non-vacuity.  (i) the hypotheses are satisfiable on non-trivial inputs: for every float
+   structure and every oracle the twin RUNS these texts to rows / to each kind of error -- an
+   aggregate over a GROUP BY with ORDER BY and LIMIT in both modes, an execution error in an
+   aggregate argument, a corrupted text, an arity error raised by AggregatePlan.Init *)
+Example select_stmt_text_never_panics_nonvacuous :
+  forall (fo : fops) (re : bytes -> bytes -> res bool) (fmt_v : F fo -> string)
+         (ag : SelectPlans.aggops fo) (pi pf : bytes -> option Z),
+  let d := [("a", "3"); ("ab", "1"); ("b", "2"); ("c", "1")] in
+  let q := "select value as g, count(1) as c, sum(int(value)) * 2 as s where key ^= 'a' | key >= 'b' group by g order by c desc, g limit 0, 5" in
+  PipelineProofs.mode_ok (Pipeline.MBatch 3) /\
+  PipelineS.select_stmt_text_st fo re fmt_v ag pi pf q d Pipeline.MRow =
+    PipelineS.STOk [[Order.VBytes "1"; Order.VInt 2; Order.VInt 4]; [Order.VBytes "2"; Order.VInt 1; Order.VInt 4];
+                    [Order.VBytes "3"; Order.VInt 1; Order.VInt 6]] /\
+  PipelineS.select_stmt_text_st fo re fmt_v ag pi pf q d (Pipeline.MBatch 3) =
+    PipelineS.select_stmt_text_st fo re fmt_v ag pi pf q d Pipeline.MRow /\
+  PipelineS.select_stmt_text_st fo re fmt_v ag pi pf "select sum(10 / (int(value) - 2)) as s where key > ''" d (Pipeline.MBatch 2) =
+    PipelineS.STRunErr (EExec 28) /\
+  PipelineS.select_stmt_text_st fo re fmt_v ag pi pf "select key, where )( order by" d Pipeline.MRow = PipelineS.STReject 18 /\
+  PipelineS.select_stmt_text_st fo re fmt_v ag pi pf "select count() where key > ''" d Pipeline.MRow =
+    PipelineS.STBuildErr (EExec 7).
+Proof.
+  intros. split; [cbn; auto|]. split; [vm_compute; reflexivity|]. split; [vm_compute; reflexivity|].
+  split; [vm_compute; reflexivity|]. split; vm_compute; reflexivity.
+Qed.
+
+(* (ii) the guards are what protects the plan nodes' own index sites: a verdict list longer than
+   the chunk, a key list shorter than the chunk do reach Panic in the twins *)
+Example long_verdict_list_would_panic :
+  forall (kv : EvalVec.kvpair), ScanProj.select_matches [kv] [true; true] = Panic.
+Proof. reflexivity. Qed.
+Example short_key_list_would_panic :
+  forall F fmt bits (ek : EvalVec.kvpair -> res (list (Group.value F))) ea p t kv,
+  AggregateLazy.lobs_zip fmt bits ek ea p t [kv] [] = Panic.
+Proof. reflexivity. Qed.
